@@ -46,6 +46,10 @@
 //!     sweep or within 1.5 px of one of the two boundary rays;
 //!   * claim B: every circle (arc: ring) point inside the sweep and further than 1.5 px from both
 //!     boundary rays is in `points()`.
+//!   * trigonometric accuracy (the hypothesis `NormalWithin n N eps`, `eps <= 16`, of the Lean theorems
+//!     `sector_distance_error` / `sector_angular_partial`): each integer normal is within 16 (of 1024),
+//!     componentwise, of the exact `1024 (-sin t, cos t)`; `*:normal-eps-max-milli` reports the
+//!     largest deviation seen (1/1000 units).
 //!   `sector:tol-needed-milli-px` in the distribution is the largest distance (in 1/1000 px) from
 //!   the nearer boundary ray of any pixel whose membership differs from "inside the sweep" — the
 //!   smallest tolerance with which the run would still pass.
@@ -188,6 +192,26 @@ fn angular_oracle(
         &format!("{}:tol-needed-milli-px{}", kind, if degenerate_line { "(degenerate sweep)" } else { "" }),
         (needed * 500.0).ceil() as u64,
     );
+    // The hypothesis of the Lean theorems `sector_distance_error` / `sector_angular_partial`
+    // (`NormalWithin n N eps`, eps <= 16): the integer normals the code computed are within `eps`,
+    // componentwise, of the exact scaled normals `1024 (-sin t, cos t)` of the two boundary rays
+    // (right half plane: the lower end of the sweep, left half plane: the upper end).
+    if ps.0 != 2 {
+        let exact = |deg: f64| {
+            let t = deg.to_radians();
+            (-1024.0 * t.sin(), 1024.0 * t.cos())
+        };
+        let (nr, nl) = (exact(sw.lo_deg), exact(sw.lo_deg + sw.w_deg));
+        let eps = (l[0] as f64 - nl.0)
+            .abs()
+            .max((l[1] as f64 - nl.1).abs())
+            .max((r[0] as f64 - nr.0).abs())
+            .max((r[1] as f64 - nr.1).abs());
+        note_max(ctx, &format!("{}:normal-eps-max-milli", kind), (eps * 1000.0).ceil() as u64);
+        ctx.expect(eps <= 16.0, &format!("C18:{}-normal-vector-inaccurate", kind), || {
+            format!("normals {:?} {:?} deviate by {:.3} (of 1024) from the exact ones", l, r, eps)
+        });
+    }
     ctx.expect(outside.is_none(), &class_a, || {
         let (p, b) = outside.unwrap();
         format!("{:?} is {:.3} px from the nearer boundary ray, outside the sweep", p, b / 2.0)
